@@ -1,9 +1,9 @@
 CONSTANTS
-  PixVariants = {4}
-  WithPreamble = {FALSE}
+  PixVariants = {1, 2, 3, 4, 5, 6, 7, 8, 9}
+  WithPreamble = {TRUE, FALSE}
   Files <- AllFiles
   Stops <- AllStops
-  MaxUpTo = 2
+  MaxUpTo = 3
 SPECIFICATION CSpec
 INVARIANTS WholeByElements WholeByFragments Progress
 CHECK_DEADLOCK FALSE
